@@ -1,6 +1,7 @@
 #!/bin/sh
-# fa.sh <G/k> <props...> : show full violation detail on scratch copy
-P=/tmp/wt/$(dirname $1)-out/$(basename $1)/patch.diff; shift
+# show_alarm.sh <patch|G/k|stored-name> <props...> : full violation detail of the packs on a scratch copy with the patch applied
+A=$1; shift
+if [ -f "$A" ]; then P=$A; elif [ -f /verif/refactorings/$A/patch.diff ]; then P=/verif/refactorings/$A/patch.diff; elif [ -f /verif/seeded/$A/patch.diff ]; then P=/verif/seeded/$A/patch.diff; else P=/tmp/wt/$(dirname $A)-out/$(basename $A)/patch.diff; fi
 T=$(mktemp -d /tmp/verif-fa-XXXXXX)
 rsync -a --exclude target --exclude .git --exclude node_modules /repo/ $T/repo/
 cd $T/repo && git apply "$P" || exit 3
